@@ -210,7 +210,9 @@ def q2_money(ctx):
             ctx.finding('Q2', '%s/arms' % rule, '%s returns %s; expected a Money arm and a Number arm' % (rule, sorted(arms)), site=b.loc)
             continue
         (mi, mc), (ni, nc) = arms['Money'], arms['Number']
-        okc = mc and nc and mc.endswith('=[1]') and nc.endswith('=[0]') and mc[:-4] == nc[:-4]
+        okc = mc and nc and mc.endswith('=[1]') and not mc.endswith('!=[1]') and (
+            (nc.endswith('=[0]') and not nc.endswith('!=[0]') and mc[:-4] == nc[:-4]) or
+            (nc.endswith('!=[1]') and mc[:-4] == nc[:-5]))          # `if let Some(..) = .. else ..`: "is not Some" is "is None" for an Option
         # the currency looked up is the one of the amount field (the non-percent operand)
         xfield = None
         for n, how, t in model.fields_read(ctx, b):
